@@ -22,7 +22,11 @@ for f in sorted(glob.glob(seed + "/demo/**/*", recursive=True)):
     if os.path.isdir(f): continue
     head = open(f, errors="replace").read(600)
     m = re.search(r"[Pp]lace\w*\s+(?:it\s+)?(?:at|in|into|under|as):?\s+`?([\w./-]+)`?", head)
-    dest = m.group(1).rstrip(".,;:") if m else None
+    dest = m.group(1).rstrip(",;:") if m else None
+    if dest is not None and dest.strip("./") == "":
+        dest = os.path.basename(f)  # "." = the root package
+    elif dest:
+        dest = dest.rstrip(".")
     if dest and not dest.endswith(".go"):
         dest = os.path.join(dest, os.path.basename(f))
     demos.append((f, dest, head.splitlines()[0] if head else ""))
